@@ -1,6 +1,7 @@
 (* C11 - Save then Load restores the same repository. *)
 From BR Require Import Base.Prelude Base.Compact Headers.Tree Headers.TreeBasics Headers.TreeInv
-     Headers.TreeSteps Headers.TreeStream Headers.TreeProps Headers.TreeExample Headers.TreeRestore.
+     Headers.TreeSteps Headers.TreeStream Headers.TreeProps Headers.TreeExample Headers.TreeRestore
+     Headers.TreeHorizon Headers.TreeTip.
 Open Scope N_scope.
 
 (* after Save;Load(depth) from any reachable state: the invariant holds again (so the tip is again
@@ -36,11 +37,31 @@ Theorem C11_side_trees : forall s d pick n, Inv s -> (0 <= d)%Z -> In n (nodes s
      find (n_hash n) (nodes s2) = None).
 Proof. exact side_trees_restored. Qed.
 Print Assumptions C11_side_trees.
-(* Not proved in Coq: that the reported tip itself (not just a tip of its work class: the tip is
-   re-chosen among the maximal-work headers restored, C01) is the same, and C11_future (later
-   submissions are treated alike); decided by the correspondence check (control run without
-   Save/Load).  Byte-level codecs of the header files are compared with the implementation only
-   through Load's behaviour. *)
+(* the reported tip itself is the same whenever it is the only header of its cumulative work
+   (K, the memory-horizon invariant, holds in every reachable state: TreeHorizon.run_K).  When
+   several headers tie for the most work the repository may report any of them after a Load (the
+   tip is re-chosen among the maximal-work headers restored, C01); which one the implementation
+   reports is then an input of the model, checked for admissibility. *)
+Theorem C11_same_tip : forall s d pick, Inv s -> inv_file_ok s -> K (nodes s) -> (0 <= d)%Z ->
+  (forall a, In a (nodes s) -> n_work a = work_of (nodes s) (tip s) -> n_hash a = tip s) ->
+  tip (fst (load (fst (save s)) d pick)) = tip s.
+Proof. exact save_load_same_tip. Qed.
+Print Assumptions C11_same_tip.
+(* Not proved in Coq: C11_future (later submissions are treated alike); decided by the
+   correspondence check (control run without Save/Load).  Byte-level codecs of the header files
+   are compared with the implementation only through Load's behaviour. *)
 
 Example C11_example : tip (fst (load (fst (save (final ex_cfg ex_g ex_ops))) 1 5)) = 5.
 Proof. vm_compute. reflexivity. Qed.
+
+(* non-vacuity of C11_same_tip: in the example's final state the tip 5 is the only header of its
+   work; whatever the implementation "picks" (here 3, a side header), the model reports 5 *)
+Example C11_same_tip_example :
+  let s := final ex_cfg ex_g ex_ops in
+  (forall a, In a (nodes s) -> n_work a = work_of (nodes s) (tip s) -> n_hash a = tip s) /\
+  tip (fst (load (fst (save s)) 1 3)) = 5.
+Proof.
+  cbv zeta. split; [|vm_compute; reflexivity].
+  intros a Ha. vm_compute in Ha. vm_compute.
+  repeat (destruct Ha as [<-|Ha]; [vm_compute; intros Hq; try reflexivity; discriminate Hq|]). destruct Ha.
+Qed.
